@@ -45,7 +45,7 @@ def Lexer.nextTokenAux (L : Lexer) (F : Facts) (sorted scan : List Nat) (n : Nat
   | fuel+1, pos =>
     if pos < n then
       match firstMatch F.mt pos scan with
-      | none => .error (.chars pos (scan.filter (fun t => !L.ignore.contains t)))
+      | none => .error (.chars pos (sorted.filter (fun t => !L.ignore.contains t)))
       | some (t, len) =>
         let ty := L.retype F sorted t pos len
         if L.ignore.contains ty then L.nextTokenAux F sorted scan n fuel (pos + max len 1)
